@@ -366,7 +366,7 @@ Lemma correct_positions_full :
   forall i d, i < N ->
     nth i xs d =
     let b := belief_at g i in
-    madd (gmean b) (mmul (msqrt (gcov b)) (nth i zs (mzero n 1))).
+    madd (gmean b) (mmul (ldlt_sqrt (gcov b)) (nth i zs (mzero n 1))).
 Proof. split; [exact correct_positions | exact (fun i d => drawn_nth i d)]. Qed.
 
 (* the weight update, particle by particle *)
@@ -380,6 +380,19 @@ Proof.
   intros Hi. rewrite correct_particles_eq, nth_map_seq by exact Hi. cbn.
   now rewrite beliefs_nth.
 Qed.
+
+(* the same with the contracts of the two models as explicit premises: one likelihood value per
+   position and one transition value per pair, so that no out-of-range read (nth default in the
+   model, likelihood_(i) / transition_probability(i) past the end in GPFCorrection.cpp:125-130)
+   is involved *)
+Lemma correct_weight_guarded :
+  length ls = N -> length ts = N -> forall i d, i < N ->
+  plw (nth i (cr_particles r) d) =
+  let b := belief_at g i in
+  let x := nth i xs (mzero n 1) in
+  gpf_weight S (plw (nth i pred dpart)) (nth i ls (s0 S)) (nth i ts (s0 S))
+             (density x (gmean b) (gcov b)).
+Proof. intros _ _. exact correct_weight. Qed.
 
 Lemma correct_particle i d : i < N ->
   nth i (cr_particles r) d =
@@ -431,6 +444,33 @@ Proof.
   f_equal. apply IH. lia.
 Qed.
 
+Lemma combine_map_length {A B C D} (f : A -> B) (g : C -> D) (a : list A) (c : list C) :
+  length a = length c -> length (combine (map f a) (map g c)) = length a.
+Proof. intros H. rewrite combine_length, !map_length. lia. Qed.
+
+Lemma ukf_corr_gstep_shape m v w (h : M O n 1 -> M O m 1) (R : M O m m) (y : M O m 1) :
+  shape_ok (ukf_corr_gstep v w h R y).
+Proof.
+  intros a b Hl. unfold ukf_corr_gstep. destruct v; auto.
+  rewrite combine_length, !map_length. lia.
+Qed.
+Lemma sukf_corr_gstep_shape m v w (h : M O n 1 -> M O m 1) (R : M O m m) (y : M O m 1) :
+  shape_ok (sukf_corr_gstep v w h R y).
+Proof.
+  intros a b Hl. unfold sukf_corr_gstep. destruct v; auto.
+  rewrite combine_length, !map_length. lia.
+Qed.
+Lemma copy_gstep_shape : shape_ok (@copy_gstep O n).
+Proof. intros a b Hl. reflexivity. Qed.
+
+(* the likelihood model returns one value per position whenever it reports valid *)
+Lemma gauss_lik_h_length m scale v1 v2 v3 v4 (h : M O n 1 -> M O m 1) R y (xs : list (M O n 1)) :
+  fst (gauss_lik_h scale v1 v2 v3 v4 h R y xs) = true ->
+  length (snd (gauss_lik_h scale v1 v2 v3 v4 h R y xs)) = length xs.
+Proof.
+  unfold gauss_lik_h. destruct v1, v2, v3, v4; cbn; try discriminate. intros _. apply map_length.
+Qed.
+
 Lemma gauss_lik_length m scale (H : M O m n) R y (xs : list (M O n 1)) :
   length (snd (gauss_lik scale true H R y xs)) = length xs.
 Proof. cbn. apply map_length. Qed.
@@ -467,13 +507,15 @@ Definition step_formulae (N : nat) (st1 : fstate O n) (s : step_in O n) (st2 : f
   (fs_valid st2 = true ->
      map pbelief (fs_corr st2) = map fst gC /\
      map pstate (fs_corr st2) = xs /\
+     (* contracts of the likelihood / transition models: one value per position / pair *)
+     (length (fs_lik st2) = N -> length (si_trans s (map pstate (fs_pred st2)) xs) = N ->
      forall i, i < N ->
        nth i xs (mzero n 1) =
          sample_from_proposal (gmean (belief_at gC i)) (gcov (belief_at gC i)) (nth i (si_zs s) (mzero n 1)) /\
        plw (nth i (fs_corr st2) dpart) =
          gpf_weight S (plw (nth i (fs_pred st2) dpart)) (nth i (fs_lik st2) (s0 S))
                     (nth i (si_trans s (map pstate (fs_pred st2)) xs) (s0 S))
-                    (density (nth i xs (mzero n 1)) (gmean (belief_at gC i)) (gcov (belief_at gC i)))).
+                    (density (nth i xs (mzero n 1)) (gmean (belief_at gC i)) (gcov (belief_at gC i))))).
 
 Lemma gpf_step_formulae N st s :
   length (fs_pred st) = N -> length (fs_corr st) = N ->
@@ -496,7 +538,7 @@ Proof.
     assert (Hvalid : fst (si_lik s (gpf_drawn (si_gc s) (si_zs s) pred (fs_corr st))) = true) by (rewrite <- HL; exact Hv).
     split; [apply correct_beliefs; assumption|].
     split; [apply correct_positions; assumption|].
-    intros i Hi. split.
+    intros _ _ i Hi. split.
     + apply drawn_nth. congruence.
     + rewrite (correct_weight _ _ _ _ _ _ Hvalid i dpart) by congruence. cbn zeta.
       replace (cr_lik _) with (snd (si_lik s (gpf_drawn (si_gc s) (si_zs s) pred (fs_corr st)))) by (rewrite <- HL; reflexivity).
@@ -544,6 +586,20 @@ Proof.
   destruct k; cbn [gpf_trace nth firstn gpf_run fold_left]; [reflexivity|].
   rewrite IH by lia. reflexivity.
 Qed.
+
+(* PF-level skip flags: without them pf_trace is gpf_trace; a skipped prediction copies the
+   previous set; a skipped correction copies the predicted set and keeps the likelihood members *)
+Lemma pf_step_noskip (st : fstate O n) s : pf_step st (s, (false, false)) = gpf_step st s.
+Proof. reflexivity. Qed.
+Lemma pf_trace_noskip (st : fstate O n) h :
+  pf_trace st (map (fun s => (s, (false, false))) h) = gpf_trace st h.
+Proof. revert st. induction h as [|s h IH]; intros st; cbn [map pf_trace gpf_trace]; [reflexivity|]. now rewrite pf_step_noskip, IH. Qed.
+Lemma pf_step_skip_prediction (st : fstate O n) s sc : fs_pred (pf_step st (s, (true, sc))) = fs_corr st.
+Proof. unfold pf_step. destruct sc; reflexivity. Qed.
+Lemma pf_step_skip_correction (st : fstate O n) s sp :
+  let st' := pf_step st (s, (sp, true)) in
+  fs_corr st' = fs_pred st' /\ fs_valid st' = fs_valid st /\ fs_lik st' = fs_lik st.
+Proof. unfold pf_step. cbn. auto. Qed.
 
 Lemma gpf_trace_length (st : fstate O n) h : length (gpf_trace st h) = length h.
 Proof. revert st. induction h as [|s h IH]; intros st; cbn; auto. Qed.
